@@ -170,9 +170,11 @@ pub fn run(args: &Args) {
     let mut index = Vec::new();
     for k in 0..sessions {
         let rt = runtime();
-        let start_vol = *rng.pick(&[997u64, 998, 999, 1, 2, 500]);
-        let start_seq = match k % 6 { 0 => 55, 1 => 54, 2 => 1, 3 => 2, _ => 1 + rng.below(55) };
-        let full = rng.below(3);
+        // the first sessions pin the boundary starts (newest volume 999 / 998 / 1 / 997, a nearly full rotation
+        // behind volume 5 so that sibling prefixes 5x / 5xx exist); later ones are seeded
+        let start_vol = if k < 6 { [999u64, 998, 1, 997, 2, 5][k as usize] } else { *rng.pick(&[997u64, 998, 999, 1, 2, 500, 57]) };
+        let start_seq = match k % 6 { 0 => 7, 1 => 54, 2 => 1, 3 => 2, 5 => 3, _ => 1 + rng.below(55) };
+        let full = if k % 6 == 5 { 520 } else { rng.below(3) };
         let target = if args.thorough { rng.range(60, 150) } else { rng.range(8, 70) };
         let script = match k % 5 {
             0 | 1 => Script { stop_after: Some(target), drop_after: None, upload_limit: 100_000, upload_rate: 70, fault_rate: 6, max_faults: 1_000 },
